@@ -131,7 +131,7 @@ func binarySection(run *hx.Run, r *hx.Rand, root string, firstIdx int) {
 		panic(err)
 	}
 	defer os.RemoveAll(root)
-	bufBin, err := buildBuf(root)
+	bufBin, err := bufBinary(run)
 	if err != nil {
 		run.Fail(hx.OracleFailure{Class: "buf-binary-does-not-build", What: err.Error(), Replay: "go build ./cmd/buf"})
 		return
@@ -162,7 +162,7 @@ func binarySection(run *hx.Run, r *hx.Rand, root string, firstIdx int) {
 			args = append(args, jb.path...)
 			cmd := exec.Command(bufBin, args...)
 			cmd.Dir = jb.dir
-			cmd.Env = append(os.Environ(), "BUF_CACHE_DIR="+filepath.Join(root, "cache"), "HOME="+root)
+			cmd.Env = bufEnv(run)
 			var stderr strings.Builder
 			cmd.Stderr = &stderr
 			if err := cmd.Run(); err != nil {
